@@ -130,6 +130,9 @@ func main() {
 		writeManifest()
 		return
 	}
+	if id == "conformance" {
+		os.Exit(conformance())
+	}
 	fs := flag.NewFlagSet("check", flag.ExitOnError)
 	tier := fs.String("tier", os.Getenv("VERIF_TIER"), "quick or thorough")
 	replay := fs.String("replay", "", "replay a violation artefact")
@@ -312,8 +315,11 @@ func buildAll(scratch, key string, b Build, pkgs map[string]bool) (map[string]st
 	}
 	overlay := map[string]string{}
 	tags := "verif,vplain"
-	if b.Kind == "sched" {
+	if b.Kind == "sched" || b.Kind == "conf" {
 		tags = "verif,vsched"
+		if b.Kind == "conf" {
+			tags = "verif,vconf"
+		}
 		coarse := map[string]bool{}
 		for _, f := range b.Coarse {
 			coarse[f] = true
@@ -368,6 +374,9 @@ func buildAll(scratch, key string, b Build, pkgs map[string]bool) (map[string]st
 	// harness files; the repository's own tests are left out of exploration builds
 	for pkg, sub := range map[string]string{"internal": "internal", "root": ""} {
 		pdir := filepath.Join(repo, sub)
+		if b.Kind == "conf" {
+			continue // conformance build: the repository's own tests, no harness
+		}
 		ents, _ := os.ReadDir(pdir)
 		for _, e := range ents {
 			if strings.HasSuffix(e.Name(), "_test.go") {
@@ -727,4 +736,42 @@ func doReplay(c *Check, path, scratch string) int {
 	}
 	fatal(2, "scenario %q not found for %s", art.Scenario, c.ID)
 	return 2
+}
+
+
+// conformance builds the repository's own internal tests against the INSTRUMENTED package with no
+// scheduler active (every shim then delegates to the real primitive it wraps) and runs them: the suite
+// must pass exactly as on the plain tree. A guard on the trusted base (DESIGN.md §5).
+func conformance() int {
+	if d := os.Getenv("VERIF_DIR"); d != "" {
+		verifDir = d
+	}
+	if d := os.Getenv("VERIF_REPO"); d != "" {
+		repo = d
+	}
+	scratch, err := os.MkdirTemp("", "verif-conf-")
+	if err != nil {
+		fatal(2, "%v", err)
+	}
+	defer os.RemoveAll(scratch)
+	b := Build{Kind: "conf", Track: true}
+	bins, err := buildAll(scratch, b.key(), b, map[string]bool{"internal": true})
+	if err != nil {
+		fmt.Println("CONFORMANCE: build failed:", err)
+		return 2
+	}
+	cmd := exec.Command(bins["internal"], "-test.count=1", "-test.timeout", "20m")
+	cmd.Dir = filepath.Join(repo, "internal")
+	o, err := cmd.CombinedOutput()
+	tail := string(o)
+	if len(tail) > 3000 {
+		tail = tail[len(tail)-3000:]
+	}
+	fmt.Println(tail)
+	if err != nil {
+		fmt.Println("CONFORMANCE: the repository's internal tests FAIL on the instrumented build:", err)
+		return 1
+	}
+	fmt.Println("CONFORMANCE: the repository's internal tests pass on the instrumented build (shims delegating to the real primitives)")
+	return 0
 }
